@@ -23,7 +23,7 @@ RULE = (
 
 def use_sites(run, dts, acc_rows, classes) -> int:
     """The table is a property of the CLASS: every way of writing an annotation of that class and every place where
-    it is used must give the cell's verdict.  Spellings: `Cls["n"]`, `Cls("n")`, `Cls[Shape[VariableAxis("n")]]`
+    it is used must give the cell's verdict.  Spellings: `Cls["n"]`, `Cls("n")`, `Cls[None]` (rank 0), `Cls[Shape[VariableAxis("n")]]`
     (symbolic shape).  Use sites: the standalone `check`, a dltyped function (argument and return position), and one
     array OBJECT passed for two parameters of different classes (the second position must still be judged by its own
     class).  Reported as failing cells."""
@@ -53,6 +53,7 @@ def use_sites(run, dts, acc_rows, classes) -> int:
         warnings.simplefilter("ignore")
         for ci, c in enumerate(classes):
             cls = getattr(dltype, c)
+            scalar = cls[None]
             spell = {
                 'Cls["n"]': cls["n"],
                 'Cls("n")': cls("n"),
@@ -84,6 +85,18 @@ def use_sites(run, dts, acc_rows, classes) -> int:
                 want = "accept" if acc_rows[ci][j] else "reject"
                 arg, ret, twice = fns[lib]
                 sites = {k: verdict(lambda a=a: a.check(arr)) for k, a in spell.items()}
+                # the scalar annotation `Cls[None]` on a rank-0 array of the same dtype
+                try:
+                    if lib == 0:
+                        arr0 = np.zeros((), dtype=arr.dtype)
+                    elif lib == 1:
+                        arr0 = torch.zeros((), dtype=arr.dtype)
+                    else:
+                        arr0 = jax.device_put(np.zeros((), dtype=arr.dtype))
+                    if arr0.dtype == arr.dtype:
+                        sites["Cls[None] on a rank-0 array"] = verdict(lambda: scalar.check(arr0))
+                except Exception:  # noqa: BLE001  (a dtype of which no rank-0 array can be made this way)
+                    pass
                 sites["dltyped argument"] = verdict(lambda: arg(arr))
                 sites["dltyped return"] = verdict(lambda: ret(arr))
                 sites["same array object passed for a TensorTypeBase parameter and for this class"] = verdict(lambda: twice(arr, arr))
